@@ -14,6 +14,10 @@ compiled kernel returns on fronts without distance ties (`mnnKernel_truncation_i
 -/
 import PymoodeProofs.C13i
 import PymoodeProofs.C15
+import Mathlib.Tactic.IntervalCases
+import Mathlib.Tactic.NormNum
+import Mathlib.Data.Rat.Defs
+import Mathlib.Algebra.Order.Field.Rat
 
 set_option linter.unusedSectionVars false
 set_option linter.unusedVariables false
@@ -132,6 +136,28 @@ theorem truncation_is_greedy_step (v : Nat → Ext α) (n : Nat) (s live : List 
         intro a ha; simp at ha; rcases ha with rfl | rfl <;> assumption)
       simpa using this.length_le
     omega
+
+/-- non-vacuity of `truncation_is_greedy_step`: three points with values 1, 0 (pruned), 3; the live ones are 0 and 2, the
+live minimum is point 0; the cut keeping one member keeps point 2 -/
+example : ∀ i, i ∈ ([2, 0, 1] : List Nat).take (([0, 2] : List Nat).length - 1) ↔ (i ∈ ([0, 2] : List Nat) ∧ i ≠ 0) := by
+  apply truncation_is_greedy_step (α := ℚ) (fun i => ([Ext.fin 1, Ext.fin 0, Ext.fin 3] : List (Ext ℚ)).getD i Ext.top) 3
+    [2, 0, 1] [0, 2] 0
+  · decide
+  · simp [SortedDesc, Ext.lt]
+  · decide
+  · intro i hi; simp at hi; rcases hi with rfl | rfl <;> omega
+  · simp
+  · intro k hk hkl i hi
+    simp at hkl hi
+    have : k = 1 := by omega
+    subst this
+    rcases hi with rfl | rfl <;> simp [Ext.lt]
+  · intro i hi hne
+    simp at hi
+    rcases hi with rfl | rfl
+    · exact absurd rfl hne
+    · simp [Ext.lt]
+
 
 /-! ### the live set of one-at-a-time pruning -/
 
